@@ -153,8 +153,8 @@ Inductive sim := SimOk (report : string) | SimFail | SimAbort.
 Section EntryPoints.
   Variable run : string -> sim.
 
-  (* abort_status: what a bare SystemExit becomes - process status 0 for the command line and the direct pipeline,
-     a RuntimeError (failure) in the client, which catches SystemExit *)
+  (* abort_status: what a bare SystemExit raised inside main() becomes for the caller.  o_exit is the process status of
+     the command line, and 0 / 1 = "returns normally" / "raises" for the in-process entry points. *)
   Definition finish (abort_status : Z) (fs : files) (input_text : string) (dir_ok : bool) : outcome :=
     match run input_text with
     | SimOk rep => if dir_ok then {| o_exit := 0; o_files := Some fs; o_report := Some rep |}
@@ -163,17 +163,24 @@ Section EntryPoints.
     | SimAbort => {| o_exit := abort_status; o_files := None; o_report := None |}
     end.
 
-  (* python -m geophires_x <inp> [<out>]  started in cwd; dir_ok: the directory of the report exists *)
+  (* python -m geophires_x <inp> [<out>]  started in cwd; dir_ok: the directory of the report exists.
+     Current code (fix 3ff4cc0):  except SystemExit as e: rc = e.code if isinstance(e.code, int) and e.code != 0 else 1
+     so a bare sys.exit() (code None) ends the process with status 1 *)
   Definition cli (cwd pkg inp : string) (out : option string) (input_text : string) (dir_ok : bool) : outcome :=
+    finish 1 (main_files cwd pkg (cli_argv cwd inp out)) input_text dir_ok.
+
+  (* the command line BEFORE fix 3ff4cc0 (kept as the named pinned behaviour): the bare SystemExit passed through
+     try/finally and the interpreter exited with status 0 *)
+  Definition cli_pinned (cwd pkg inp : string) (out : option string) (input_text : string) (dir_ok : bool) : outcome :=
     finish 0 (main_files cwd pkg (cli_argv cwd inp out)) input_text dir_ok.
 
-  (* GeophiresXClient from any working directory (o_exit 1 = get_geophires_result raises) *)
+  (* GeophiresXClient from any working directory: SystemExit is caught and re-raised as RuntimeError *)
   Definition client (cwd pkg inp out : string) (input_text : string) : outcome :=
     finish 1 (main_files cwd pkg (client_argv inp out)) input_text true.
 
-  (* GEOPHIRESv3.main() called directly with sys.argv = ['', inp, out] *)
+  (* GEOPHIRESv3.main() called directly with sys.argv = ['', inp, out]: the SystemExit reaches the caller as an exception *)
   Definition direct (cwd pkg : string) (argv : list string) (input_text : string) (dir_ok : bool) : outcome :=
-    finish 0 (main_files cwd pkg argv) input_text dir_ok.
+    finish 1 (main_files cwd pkg argv) input_text dir_ok.
 End EntryPoints.
 
 (* ---- what the file system does with '..' (no symbolic links): used to compare with observed file names ---- *)
